@@ -61,6 +61,7 @@ AXIOM = "f(x, x) == 0 (C17 R-CRCSTEP 'residue-zero(f(c,d)=L(c^d),L(0)=0)', check
 I8 = {'k': 'int', 'bits': 8, 'size': 1, 's': 'i8'}
 FIELDS = ['GSTUFF_START', 'GSTUFF_STOP', 'GSTUFF_STUB', 'GSTUFF_STUB_START', 'GSTUFF_STUB_STOP', 'GSTUFF_STUB_STUB']
 RULE = 'R-ROUNDTRIP'
+OVERLONG = True       # also decide the frames whose content is two bytes too long (R-ROUNDTRIP:overlong)
 
 
 class Unresolved(Exception):
@@ -139,7 +140,7 @@ class RtInterp(Interp):
         who = (inst.fn.srcname or inst.fn.name) if inst is not None else '?'
         where = inst.where() if inst is not None else '?'
         if p.is_null:
-            self.events.append(dict(fn=who, root=self.root, where=where, what='%s through a null pointer' % kind))
+            self.events.append(dict(fn=who, root=self.root, where=where, st=st, what='%s through a null pointer' % kind))
             st.bottom = True
             return
         o = st.objs.get(p.obj)
@@ -154,7 +155,7 @@ class RtInterp(Interp):
             lo, hi = p.lo.c, p.hi.c
         self.checked += 1
         if size and (p.off.c < lo or p.off.c + size > hi):
-            self.events.append(dict(fn=who, root=self.root, where=where, obj=p.obj,
+            self.events.append(dict(fn=who, root=self.root, where=where, obj=p.obj, st=st,
                                     what='%s of %d byte(s) at offset %d of %s (%d bytes)'
                                          % (kind, size, p.off.c, self.describe_obj(st, p.obj), o.size.c)))
             st.bottom = True
@@ -893,8 +894,15 @@ class Scenario:
         rets = c.encode(it, st, which, f, A, pieces, n, out)
         bk.paths += len(rets)
         for e in it.events:
-            text, real = describe(A, self.classes, 'other', split)
-            bk.note(R, fname, K(SIZE), False, e['where'], '%s in %s (called from %s): %s' % (e['what'], e['fn'], which, text))
+            # the class of the CRC byte on the path that left the buffer (as far as that path had decided it)
+            ccls, maybe = crc_class(it, e['st'], A, crc_of(it, e['st'], self.vals))
+            cands = [ccls] if ccls is not None else maybe + ['other']
+            cands = [x for x in cands if describe(A, self.classes, x, split)[1]]
+            if not cands:
+                continue
+            text, real = describe(A, self.classes, cands[0], split)
+            bk.note(R, fname, K(SIZE), False, e['where'], '%s in %s (called from %s): %s%s' % (
+                e['what'], e['fn'], which, text, pins(it, e['st'], A)))
         if not rets and not it.events:
             raise Unresolved('%s: no return reached' % which)
         # complete the case split on the class of the CRC byte where the encoder's own comparisons left it open
@@ -1088,15 +1096,19 @@ class Scenario:
         or two (n == cap) bytes more than the cap - 1 the buffer can hold"""
         c, A = self.codec, self.A
         over = self.n + 1 - (cap - 1)
+        it0 = c.interp(A)
+        fixed, _ = crc_class(it0, self.base, A, crc_of(it0, self.base.fork(), self.vals))
         for ccls in A.classes:
             if concretise(A, self.classes, ccls) is None and not A.symbolic:
                 continue
             T = self.base.fork()
             it = c.interp(A)
             crc = crc_of(it, T, self.vals)
-            if crc.is_const():
-                raise Unresolved('the CRC term of a non-empty payload is a constant')
-            if ccls == 'other':
+            if crc.is_const() or fixed is not None:
+                # the CRC term is pinned by the payload itself (a payload byte equal to the seed): only its own class exists
+                if ccls != (fixed or 'other'):
+                    continue
+            elif ccls == 'other':
                 for m in A.markers():
                     T.add_diseq(crc, m)
             else:
@@ -1143,7 +1155,7 @@ def plan(codecs, tier):
                     tasks.append(('rt', cname, ai, classes, 3 if n <= n3 else 2))
             for cap in range(2, 6):
                 for n in (cap - 1, cap):
-                    if n == cap and cap > (5 if tier == 'thorough' else 3):
+                    if n == cap and (not OVERLONG or cap > (5 if tier == 'thorough' else 3)):
                         continue
                     for classes in itertools.product(A.classes, repeat=n):
                         if (tier != 'thorough' or A.symbolic) and n > 2 and any(x != 'other' for x in classes[:n - 2]):
@@ -1175,11 +1187,16 @@ def run_ext(rep, repo, tier):
     tasks = [t for t in plan(codecs, tier) if codecs[t[1]].alphabets[t[2]].consistent()]
     book = Book()
     workers = min(16, os.cpu_count() or 2, max(1, len(tasks) // 8))
-    if workers > 1:
-        with multiprocessing.get_context('fork').Pool(workers) as pool:
-            for bk in pool.imap_unordered(_task, tasks, chunksize=2):
-                book.merge(bk)
-    else:
+    done = False
+    if workers > 1 and not multiprocessing.current_process().daemon:
+        try:
+            with multiprocessing.get_context('fork').Pool(workers) as pool:
+                for bk in pool.imap_unordered(_task, tasks, chunksize=2):
+                    book.merge(bk)
+            done = True
+        except OSError:
+            book = Book()           # no processes to be had: run the scenarios here
+    if not done:
         for t in tasks:
             book.merge(_task(t))
     for (rule, fn, key), r in sorted(book.inst.items()):
@@ -1227,6 +1244,7 @@ def run_ext(rep, repo, tier):
     rep.floor(RULE + ':frame', 5 * fk)
     rep.floor(RULE + ':decode', 5 * dk)
     rep.floor(RULE + ':overflow', 3 * 4 * na)
-    rep.floor(RULE + ':overlong', 3 * na)
+    if OVERLONG:
+        rep.floor(RULE + ':overlong', 3 * na)
     rep.floor(RULE + ':analysed', na)
     rep.floor(RULE + ':alphabet', 3)
